@@ -9,6 +9,7 @@ import Orda.Proofs.DocArr
 import Orda.Proofs.DocMixed
 import Orda.Proofs.DocCausal
 import Orda.Proofs.DocLocalRemote
+import Orda.Proofs.DocNet
 namespace Orda.Props.C01
 open Orda
 
@@ -212,5 +213,38 @@ theorem doc_receiver_reaches_senders_state (cuid : String) (create : Bool) (r q 
     ∃ (o : Op) (d' dq : Doc), (r.call c).1.buffer = r.buffer ++ [o] ∧ (r.call c).1.state = .doc d' ∧
       (q.execRemoteBase o).1.state = .doc dq ∧ (q.execRemoteBase o).2 = none ∧ DocEq dq d' ∧ dq.view = d'.view :=
   DLR.life_receiver_reaches_senders_state cuid create r q hl d hs hq c hk hm v hok
+
+/-! ### documents END TO END: no applicability hypothesis
+`DNet`: n replicas (`Replica.new .document (cuid i) false`, pairwise distinct client ids) and ONE server log; steps: any public
+call on any replica (valid or not), push of a replica's next unpushed operation to the log, pull of the next log entry
+(own entries skipped, the others delivered with the real `execRemoteBase`) — in any interleaving. -/
+
+open Orda.DNet Orda.DM Orda.DR in
+/-- every delivery the system performs IS applicable (this is the hypothesis of all convergence theorems above, now a
+    theorem), raises neither error nor panic, is exactly `applyD`, and keeps the document invariant -/
+theorem doc_every_delivery_is_applicable (cuid : Nat → String) (n : Nat) (net : Net) (h : Reach cuid n net) (i : Nat)
+    (nd : Node) (a : Nat) (o : Op) (d : Doc) (hi : net.nodes[i]? = some nd) (hl : net.log[nd.pulled]? = some (a, o))
+    (ha : a ≠ i) (hs : nd.r.state = .doc d) :
+    ∃ x, toDOp o = some x ∧ GoodD d [x] ∧ ValuesOK x ∧ (nd.r.execRemoteBase o).2 = none ∧
+      (nd.r.execRemoteBase o).1.state = .doc (applyD d x) ∧ DP.DocInv (nd.r.execRemoteBase o).1 :=
+  net_deliveries_exact net h i nd a o d hi hl ha hs
+
+open Orda.DNet Orda.DA in
+/-- THE statement of C01 for documents: in every reachable state of the system, two replicas that have the same
+    operations (own + delivered, as multisets) hold `ASim`-equal documents and show the same JSON value — whatever the
+    interleaving of their own local calls with the operations delivered from the server log -/
+theorem doc_same_operations_same_document (cuid : Nat → String) (n : Nat) (net : Net) (h : Reach cuid n net)
+    (i j : Nat) (hi : i < net.nodes.length) (hj : j < net.nodes.length) (di dj : Doc)
+    (hsi : net.nodes[i].r.state = .doc di) (hsj : net.nodes[j].r.state = .doc dj) (hso : SameOps net i j) :
+    ASim di dj ∧ di.view.canon = dj.view.canon :=
+  net_same_operations_same_document net h i j hi hj di dj hsi hsj hso
+
+open Orda.DNet Orda.DA in
+/-- at every quiescent point (everything pushed, everything pulled) all replicas agree -/
+theorem doc_quiescent_replicas_agree (cuid : Nat → String) (n : Nat) (net : Net) (h : Reach cuid n net) (hq : Quiescent net)
+    (i j : Nat) (hi : i < net.nodes.length) (hj : j < net.nodes.length) (di dj : Doc)
+    (hsi : net.nodes[i].r.state = .doc di) (hsj : net.nodes[j].r.state = .doc dj) :
+    ASim di dj ∧ di.view.canon = dj.view.canon :=
+  net_quiescent_converged net h hq i j hi hj di dj hsi hsj
 
 end Orda.Props.C01
